@@ -328,11 +328,9 @@ class Torrent():
             ``None`` if ``files`` is empty
         """
         def abspath(p):
-            # Absolute path without resolved symlinks
-            if p.is_absolute():
-                return pathlib.Path(os.path.normpath(p))
-            else:
-                return pathlib.Path.cwd() / os.path.normpath(p)
+            # Absolute path without resolved symlinks; ".." segments are
+            # collapsed after joining with the current working directory
+            return pathlib.Path(os.path.normpath(os.path.join(os.getcwd(), p)))
 
         def relpath_without_parent(p):
             # Relative path without common parent directory
@@ -372,17 +370,11 @@ class Torrent():
             info.pop('pieces', None)
             info.pop('md5sum', None)
         else:
-            if str(basepath) == os.curdir:
-                # Name of current working directory
-                name = pathlib.Path.cwd().name
-            elif str(basepath) == os.pardir:
-                # Name of logical parent directory
+            if str(basepath).endswith(os.curdir) or str(basepath).endswith(os.pardir):
+                # Name of the directory ".", "..", "sub/..", "../.." etc lead to
                 # NOTE: Path.resolve() returns the physical parent directory; if
                 # the parent directory is a symlink, we get an unexpected name
-                name = os.path.basename(os.path.dirname(os.getcwd()))
-            elif str(basepath).endswith(os.curdir) or str(basepath).endswith(os.pardir):
-                # Name of current/parent directory (logical parent, see NOTE above)
-                name = pathlib.Path(os.path.normpath(basepath)).name
+                name = abspath(basepath).name
             else:
                 name = basepath.name
 
